@@ -994,6 +994,9 @@ pub mod vh1 {
         /// payload) does, step by step, right after the `200` was queued and before it drains the
         /// upload source to its end
         pub peer_script: Vec<PeerStep>,
+        /// the relay side goes away without an orderly end: after the peer script the response sink and the
+        /// upload source are dropped without `eof()` (an aborted origin, a pipe error, an idle timeout)
+        pub abort_relay: bool,
     }
 
     /// one step of the peer side of [`session_with`]
@@ -1012,7 +1015,7 @@ pub mod vh1 {
 
     impl Default for ClientOpts {
         fn default() -> Self {
-            ClientOpts { capacity: 1 << 20, read_step: 0, drop_sink_after_eof: false, client_closes_last: false, peer_script: vec![] }
+            ClientOpts { capacity: 1 << 20, read_step: 0, drop_sink_after_eof: false, client_closes_last: false, peer_script: vec![], abort_relay: false }
         }
     }
 
@@ -1153,6 +1156,21 @@ pub mod vh1 {
                             }
                         }
                     }
+                }
+                if opts.abort_relay {
+                    drop(sink.take());
+                    drop(source);
+                    obs.upload_end = "aborted".into();
+                    obs.session_ok = tokio::time::timeout(std::time::Duration::from_secs(5), pump).await.ok().and_then(|x| x.ok()).is_some();
+                    let _ = writer.await;
+                    let (out, eof) = tokio::time::timeout(std::time::Duration::from_secs(2), reader)
+                        .await
+                        .ok()
+                        .and_then(|x| x.ok())
+                        .unwrap_or_default();
+                    obs.transport_out = out;
+                    obs.transport_eof = eof;
+                    return obs;
                 }
                 if opts.client_closes_last {
                     // the peer finishes first: end of stream towards the client while it still listens
